@@ -178,12 +178,14 @@ def _c17_instances():
         else:
             tier = "thorough"
         no_cover = []
-        for kind, term in (("path", ["has_path"]), ("min", ["rule_min_costs"]), ("max", ["rule_max_costs", "has_path"]),
+        kinds = (("path", ["has_path"]),) if sh["domain"] == "g44" else None
+        for kind, term in kinds or (("path", ["has_path"]), ("min", ["rule_min_costs"]), ("max", ["rule_max_costs", "has_path"]),
                            ("term", ["rule_min_costs", "rule_max_costs", "has_path"])):
             t = "quick" if kind in _QUICK.get(tag, ()) else tier
-            out.append(I(f"c17::c17_{kind}_{tag}", t, bounds=b, termination=term, shape=tag, kind=kind,
-                         est_gb={"min": 2, "max": 4, "path": 5, "term": 5}[kind] + (2 if sh["domain"] == "g34" else 0),
-                         est_s={"min": 60, "max": 110, "path": 140, "term": 150}[kind]))
+            extra = {"est_gb": 26, "mem_gb": 30, "timeout_s": 5400, "est_s": 2200} if sh["domain"] == "g44" else {
+                "est_gb": {"min": 2, "max": 4, "path": 5, "term": 5}[kind] + (2 if sh["domain"] == "g34" else 0),
+                "est_s": {"min": 60, "max": 110, "path": 140, "term": 150}[kind]}
+            out.append(I(f"c17::c17_{kind}_{tag}", t, bounds=b, termination=term, shape=tag, kind=kind, **extra))
     # FIRST / nullable: Vob-based code, affordable only at a few small shapes (5-20 GB each): the smallest
     # (a chain of three rules ending in an empty production, one user token) in the quick tier
     for tag, b, tier, est in (
@@ -215,7 +217,8 @@ PROPS["C17"] = {
                  "three user rules, productions of length 1, 1, 0) with one user token",
         "thorough": "all 36 shapes of G(2,3,2,3) plus 7 hand-picked shapes of G(3,4,3,3) (3 user rules, 4 user "
                     "productions of length <= 3); FIRST/nullable as the least model of the textbook Horn system at "
-                    "the shapes a1_b1_c0, a2_b1_c0, a3_b0, a21_b0, a2_b2 (all slots symbolic)",
+                    "the shapes a1_b1_c0, a2_b1_c0, a3_b0, a21_b0, a2_b2 (all slots symbolic); reachability for one shape with "
+                    "four user rules (a2_b1_c2_d1: 25 has_path calls, 35 min / 24 GB)",
     },
     "outside_claim": [
         "FOLLOW (YaccFollows::new): out of memory at the smallest relevant shape (DESIGN 4, probe 21; again at "
